@@ -2,6 +2,7 @@ package main
 
 import (
 	"bufio"
+	"bytes"
 	"encoding/json"
 	"fmt"
 	"io"
@@ -522,7 +523,7 @@ func jinLine(top *jn, expect string) string {
 
 func init() {
 	props["C12"] = &prop{
-		rule: "random request trees (known tags with inferred types, numeric and unknown tags with explicit types, all data types, boundary values per type written as 5 / 5.0 / 5e0, nesting <= 4) with a notation per node (bare, tuple, object); EVERY notation assignment for trees of <= 4 nodes (JEQ groups), random assignments beyond; out-of-range / non-integral / wrongly typed values for every type; malformed requests (not an array, empty or 4-element tuple, unknown tag or type name, tag outside uint32 or not a plain integer, null / {} / object without Tag, 3-tuple without a type); the request text goes through the real unmarshalJSONRequests in package main of cmd/e3dc; non-trivial = the text is a JSON array; distinct by case line",
+		rule: "random request trees (known tags with inferred types, numeric and unknown tags with explicit types, all data types, boundary values per type written as 5 / 5.0 / 5e0, nesting <= 4) with a notation per node (bare, tuple, object); EVERY notation assignment for trees of <= 4 nodes (JEQ groups), random assignments beyond; out-of-range / non-integral / wrongly typed values for every type; malformed requests (not an array, empty or 4-element tuple, unknown tag or type name, tag outside uint32 or not a plain integer, null / {} / object without Tag, 3-tuple without a type); the request text goes through the real unmarshalJSONRequests in package main of cmd/e3dc; + the real e3dc binary (split and unsplit) on texts whose later element is unacceptable: rejected, nothing transmitted; non-trivial = the text is a JSON array; distinct by case line",
 		gen: func(tier string, r *rng, emit func(string)) {
 			n := tierPick(tier, 1500, 30000)
 			for i := 0; i < n; i++ {
@@ -586,11 +587,29 @@ func init() {
 				emit(jinLine(m, "?"))
 			}
 			emit("JIN " + hx([]byte("")) + " (null) => ERR")
+			// "... is rejected with an error and no request is transmitted": the real e3dc binary against a device that would answer,
+			// a request text whose LATER element is unacceptable (unknown tag or type, unrepresentable value, bad tuple), split and unsplit
+			for _, bad := range []string{"\"NO_SUCH_TAG\"", "[\"EMS_REQ_POWER_BAT\",\"UInt16\",70000]", "[\"EMS_REQ_POWER_BAT\",\"NoSuchType\",1]",
+				"[\"EMS_REQ_POWER_BAT\",\"UChar8\",-1]", "[1,2,3,4]", "[]", "null", "{\"DataType\":\"UInt16\"}", "[\"EMS_REQ_POWER_BAT\",\"Float32\",\"x\"]", "4294967296"} {
+				for _, lead := range []string{"\"EMS_REQ_POWER_PV\"", "\"EMS_REQ_POWER_PV\",[\"BAT_REQ_RSOC\"]", "[\"EMS_REQ_SET_POWER\",[[\"EMS_REQ_SET_POWER_MODE\",1]]]"} {
+					for _, split := range []string{"0", "1"} {
+						emit("CLI12 " + split + " " + hx([]byte("["+lead+","+bad+"]")))
+					}
+				}
+			}
 			emit("JIN " + hx([]byte("  \n[ \"EMS_REQ_POWER_PV\" ,\t[\"EMS_REQ_POWER_BAT\"] ]\n")) + " " + jarr(pv, jarr(jstr("EMS_REQ_POWER_BAT"))).ast() + " => ?")
 		},
 		run: func(c string) string {
 			f := strings.SplitN(c, " ", 3)
 			switch f[0] {
+			case "CLI12":
+				pc := newPeerConn(cliKey)
+				rs := []reaction{answer(pc.reply(authReply(10), true))}
+				for j := uint32(1); j <= 4; j++ {
+					rs = append(rs, answer(pc.reply(nonceReply(j), true)))
+				}
+				return runCli(cliCase{host: true, user: true, pass: true, key: true, reqsrc: "arg", reqhex: f[2], outfmt: "json", split: f[1] == "1", cfg: "none",
+					conns: [][]reaction{rs}})
 			case "JIN":
 				return driver().ask("JIN " + f[1])
 			case "JEQ":
@@ -617,6 +636,22 @@ func init() {
 			if strings.HasPrefix(res, "PANIC") || res == "HANG" {
 				return "parsing a request text: " + shorten(res, 200)
 			}
+			if strings.HasPrefix(c, "CLI12 ") {
+				parts := strings.SplitN(res, " || ", 2)
+				kv := _kv(parts[0])
+				if kv["status"] == "0" || kv["stdout"] != "-" {
+					return "a request text with an unacceptable element is not rejected by the command: " + shorten(res, 160)
+				}
+				if len(parts) == 2 {
+					for _, fr := range strings.Split(parts[1], " ; ") {
+						ff := strings.SplitN(fr, " ", 3)
+						if len(ff) == 3 && !strings.HasPrefix(ff[2], "((1 14 ") && !strings.HasPrefix(ff[2], "(1 14 ") {
+							return "a request text with an unacceptable element is rejected, but a request was transmitted before: " + shorten(ff[2], 160)
+						}
+					}
+				}
+				return ""
+			}
 			if strings.HasPrefix(c, "JEQ") {
 				if res == "DIFF" {
 					return "the same request tree written in different notations is parsed to different messages"
@@ -641,6 +676,8 @@ func init() {
 		class: func(c, res string) string {
 			k := strings.Fields(c)[0]
 			switch {
+			case k == "CLI12":
+				return "CLI12:rejected-by-the-command"
 			case strings.HasPrefix(res, "OK"), strings.HasPrefix(res, "SAME"):
 				return k + ":accepted"
 			case res == "ERR", res == "ALLERR":
@@ -650,6 +687,9 @@ func init() {
 		},
 		nontrivial: func(c, res string) bool {
 			f := strings.Fields(c)
+			if f[0] == "CLI12" {
+				return true
+			}
 			return len(f) > 1 && strings.HasPrefix(f[1], "5b")
 		},
 	}
@@ -807,7 +847,7 @@ func unrenderable(ms []rscp.Message, format string) string {
 
 func init() {
 	props["C13"] = &prop{
-		rule: "response trees over all data types incl. NaN/+-Inf/-0, timestamps over the whole int64 range (years far below 0, -1, 0, 1, 9999, 10000), strings with quotes/control characters/invalid UTF-8, unknown tags, repeated and interleaved container tags (A A B, A B A, A A B B), scalar/container collisions in both orders, depth <= 5 x the 3 output formats, rendered by the real NewJSON*Messages / json.Marshal in package main of cmd/e3dc; the document text is compared with the model's (leaf formatting from an oracle table), each output is checked to be valid JSON and deterministic; non-trivial = at least two messages; distinct by case line",
+		rule: "response trees over all data types incl. NaN/+-Inf/-0, timestamps over the whole int64 range (years far below 0, -1, 0, 1, 9999, 10000), (+ for every data type at top level the same through the real e3dc binary, unsplit and with -splitrequests); strings with quotes/control characters/invalid UTF-8, unknown tags, repeated and interleaved container tags (A A B, A B A, A A B B), scalar/container collisions in both orders, depth <= 5 x the 3 output formats, rendered by the real NewJSON*Messages / json.Marshal in package main of cmd/e3dc; the document text is compared with the model's (leaf formatting from an oracle table), each output is checked to be valid JSON and deterministic; non-trivial = at least two messages; distinct by case line",
 		gen: func(tier string, r *rng, emit func(string)) {
 			formats := []string{"json", "jsonsimple", "jsonmerged"}
 			A, B, C := rscp.BAT_DATA, rscp.PVI_DATA, rscp.Tag(0x7f800001)
@@ -842,6 +882,15 @@ func init() {
 				for k := 0; k < 8; k++ {
 					ms := []rscp.Message{{Tag: S, DataType: d, Value: responseValue(r, d, 0)}}
 					emit(joutLine("JOUT", formats[k%3], ms))
+				}
+				// the same through the real e3dc binary and a scripted device (JOUTB: one SendMultiple; JOUTBS: -splitrequests, one
+				// Client.Send per message): what the device answered is what is printed, for every data type at top level
+				if d != rscp.Container {
+					for k := 0; k < 3; k++ {
+						ms := []rscp.Message{{Tag: S, DataType: d, Value: responseValue(r, d, 0)}, {Tag: rscp.BAT_RSOC, DataType: rscp.Float32, Value: float32(1.5)}}
+						emit(joutLine("JOUTB", formats[k%3], ms))
+						emit(joutLine("JOUTBS", formats[(k+1)%3], ms))
+					}
 				}
 			}
 			// every arrangement of up to 6 containers under two tags (A A A B B, A B A B A, ...), each occurrence with its own
@@ -904,6 +953,36 @@ func init() {
 		run: func(c string) string {
 			hd := strings.SplitN(c, " | ", 2)[0]
 			f := strings.SplitN(hd, " ", 3)
+			if f[0] == "JOUTB" || f[0] == "JOUTBS" {
+				ms := msgsOfSx(parseSxString(f[2]))
+				split := f[0] == "JOUTBS"
+				pc := newPeerConn(cliKey)
+				rs := []reaction{answer(pc.reply(authReply(10), true))}
+				var reqs []string
+				for range ms {
+					reqs = append(reqs, "\"EMS_REQ_POWER_PV\"")
+				}
+				if split {
+					for j := range ms {
+						rs = append(rs, answer(pc.reply(ms[j:j+1], true)))
+					}
+				} else {
+					rs = append(rs, answer(pc.reply(ms, true)))
+				}
+				res := runCli(cliCase{host: true, user: true, pass: true, key: true, reqsrc: "arg", reqhex: hx([]byte("[" + strings.Join(reqs, ",") + "]")),
+					outfmt: f[1], split: split, cfg: "none", conns: [][]reaction{rs}})
+				if res == "HANG" {
+					return res
+				}
+				kv := _kv(strings.SplitN(res, " || ", 2)[0])
+				if kv["panic"] == "1" {
+					return "PANIC the command ends with a Go panic trace"
+				}
+				if kv["status"] != "0" {
+					return "FAIL"
+				}
+				return "OK " + hx(bytes.TrimRight(unhx(kv["stdout"]), "\n"))
+			}
 			q := "JOUT " + f[1] + " " + f[2]
 			a := driver().ask(q)
 			// deterministic: the same document three times
@@ -958,7 +1037,9 @@ func init() {
 			}
 			return f[1] + ":" + strings.Fields(res)[0]
 		},
-		nontrivial: func(c, res string) bool { return strings.Count(strings.SplitN(c, " | ", 2)[0], "(") > 3 },
+		nontrivial: func(c, res string) bool {
+			return strings.HasPrefix(c, "JOUTB") || strings.Count(strings.SplitN(c, " | ", 2)[0], "(") > 3
+		},
 	}
 }
 
